@@ -36,30 +36,44 @@ class GenRun:
         self.tags = self._registered_tags()
 
     def _registered_tags(self):
-        """{yaml tag: Cls} for the classes parse() registers (yaml.register_class(X)), tag = the class's yaml_tag"""
+        """{yaml tag: Cls} for the classes parse() registers on its YAML(typ='safe') object, tag = the class's yaml_tag.
+        parse() itself is interpreted with a recording stand-in for ruamel's YAML class, so a list of register_class statements,
+        a loop over a tuple of classes or a helper all read the same"""
         fn = self.yp.funcs.get('parse')
         if fn is None:
             raise AnalysisError('anchor vanished: lib/yaml_parser.py::parse')
+        registered, made, loaded = [], [], []
+
+        def h_yaml(it, args, kwargs):
+            made.append((list(args), dict(kwargs)))
+
+            def reg(it2, a, k):
+                registered.append(a[0] if a else None)
+                return a[0] if a else None
+
+            def load(it2, a, k):
+                loaded.append(len(registered))
+                return {}
+            return Native({'register_class': native(reg), 'load': native(load)}, 'YAML')
+        it = Interp(self.idx, hooks={'name:YAML': h_yaml}, where='resource-generator lib/yaml_parser.py::parse', budget=100000)
+        try:
+            it.call_function(FuncRef(self.yp, fn, None), ['content'], {})
+        except PyExc as e:
+            raise AnalysisError('lib/yaml_parser.py::parse raises %s when interpreted' % e)
+        if len(made) != 1 or made[0][0] or made[0][1] != {'typ': 'safe'}:
+            raise AnalysisError('lib/yaml_parser.py::parse no longer builds exactly one YAML(typ="safe"): the scalar resolution '
+                                'modelled here (YAML 1.2 core schema) may not apply')
+        if loaded != [len(registered)]:
+            raise AnalysisError('lib/yaml_parser.py::parse does not load the content once, after all classes are registered')
         out = {}
-        loader_ok = False
-        for n in ast.walk(fn):
-            if isinstance(n, ast.Call) and isinstance(n.func, ast.Attribute) and n.func.attr == 'register_class' and n.args \
-                    and isinstance(n.args[0], ast.Name):
-                c = self.yp.classes.get(n.args[0].id)
-                if c is None:
-                    raise AnalysisError('parse() registers %s, which lib/yaml_parser.py does not define' % n.args[0].id)
-                t = c.attrs.get('yaml_tag')
-                if not (isinstance(t, ast.Constant) and isinstance(t.value, str)):
-                    raise AnalysisError('%s.yaml_tag is not a string constant' % c.name)
-                out[t.value] = c
-            if isinstance(n, ast.Call) and isinstance(n.func, ast.Name) and n.func.id == 'YAML':
-                kw = {k.arg: k.value for k in n.keywords}
-                loader_ok = isinstance(kw.get('typ'), ast.Constant) and kw['typ'].value == 'safe'
-            if isinstance(n, ast.Call) and isinstance(n.func, ast.Attribute) and n.func.attr == 'load':
-                pass
-        if not loader_ok:
-            raise AnalysisError('lib/yaml_parser.py::parse no longer builds YAML(typ="safe"): the scalar resolution modelled here '
-                                '(YAML 1.2 core schema) may not apply')
+        for r in registered:
+            if not isinstance(r, ClassRef) or r.cls.mod is not self.yp:
+                raise AnalysisError('parse() registers %r, which is not a class of lib/yaml_parser.py' % (r,))
+            c = r.cls
+            t = c.attrs.get('yaml_tag')
+            if not (isinstance(t, ast.Constant) and isinstance(t.value, str)):
+                raise AnalysisError('%s.yaml_tag is not a string constant' % c.name)
+            out[t.value] = c
         if not out:
             raise AnalysisError('lib/yaml_parser.py::parse registers no classes')
         return out
